@@ -38,6 +38,44 @@ Theorem c05_default_sets :
   w_jws_def w0 = PNone /\ w_jwe_def w0 = PNone /\ jws_default_allowed = None.
 Proof. exact default_sets_full. Qed.
 
+(* ---- the same after register_ecdh_1pu(); register_chaha20_poly1305() (tables
+        *_drafts of Gen.Tables): the draft algorithms are registered but NOT
+        recommended, so with no list the usable names are STILL exactly the literals
+        of the property text; every draft alg / enc (ECDH-1PU*, C20P, XC20P) is
+        refused by the default registry, a bare registry and an empty list, and
+        accepted when an explicit list names it ---- *)
+Theorem c05_default_sets_drafts :
+  (forall n, (exists m, jws_get_alg w0_drafts (jws_select w0_drafts PNone None) (PStr n) = Ok m) <->
+             In n (map nm ["HS256"; "RS256"; "ES256"]%string)) /\
+  (forall n, (exists m, jwe_get_alg w0_drafts (jwe_select w0_drafts PNone None) (PStr n) = Ok m) <->
+             In n (map nm ["RSA-OAEP"; "A128KW"; "A256KW"; "dir"; "ECDH-ES";
+                           "ECDH-ES+A128KW"; "ECDH-ES+A256KW"]%string)) /\
+  (forall n, (exists m, jwe_get_enc w0_drafts (jwe_select w0_drafts PNone None) (PStr n) = Ok m) <->
+             In n (map nm ["A128CBC-HS256"; "A192CBC-HS384"; "A256CBC-HS512";
+                           "A128GCM"; "A192GCM"; "A256GCM"]%string)) /\
+  (forall n, (exists m, jwe_get_zip w0_drafts (jwe_select w0_drafts PNone None) (PStr n) = Ok m) <->
+             In n (map nm ["DEF"]%string)) /\
+  w_jws_def w0_drafts = PNone /\ w_jwe_def w0_drafts = PNone /\ jws_default_allowed_drafts = None.
+Proof. exact default_sets_drafts. Qed.
+
+Theorem c05_drafts_only_explicit :
+  forallb (fun n => match jwe_get_alg w0_drafts PNone (pname n), jwe_get_alg w0_drafts (PList []) (pname n),
+                          jwe_get_alg w0_drafts (w_jwe_def w0_drafts) (pname n),
+                          jwe_get_alg w0_drafts (PList [pname n]) (pname n) with
+                    | Err (EJose UnsupportedAlgorithmError), Err (EJose UnsupportedAlgorithmError),
+                      Err (EJose UnsupportedAlgorithmError), Ok _ => true
+                    | _, _, _, _ => false end) draft_alg_names = true /\
+  forallb (fun n => match jwe_get_enc w0_drafts PNone (pname n), jwe_get_enc w0_drafts (PList []) (pname n),
+                          jwe_get_enc w0_drafts (w_jwe_def w0_drafts) (pname n),
+                          jwe_get_enc w0_drafts (PList [pname n]) (pname n) with
+                    | Err (EJose UnsupportedAlgorithmError), Err (EJose UnsupportedAlgorithmError),
+                      Err (EJose UnsupportedAlgorithmError), Ok _ => true
+                    | _, _, _, _ => false end) draft_enc_names = true /\
+  draft_alg_names <> [] /\ draft_enc_names <> [] /\
+  skipn (length jws_alg_table) jws_alg_table_drafts = [] /\
+  skipn (length jwe_zip_table) jwe_zip_table_drafts = [].
+Proof. exact drafts_only_explicit. Qed.
+
 (* ---- the gate: for every world, every well-typed allow-list (None or a list of
         arbitrary values) and every string name, get_* succeeds exactly on the
         supported names of the effective allow-list, returning the registered row ---- *)
@@ -286,6 +324,8 @@ Example c05_instances :
 Proof. exact instances. Qed.
 
 Print Assumptions c05_default_sets.
+Print Assumptions c05_default_sets_drafts.
+Print Assumptions c05_drafts_only_explicit.
 Print Assumptions c05_gate.
 Print Assumptions c05_gate_lookup.
 Print Assumptions c05_gate_else.
